@@ -33,13 +33,13 @@ type thread struct {
 
 // Sched is one execution under the controlled scheduler.
 type Sched struct {
-	threads  []*thread
-	cur      int
-	choose   Chooser
-	Trace    []Point
-	Deadlock bool
-	abort    bool
-	finished chan struct{}
+	threads   []*thread
+	cur       int
+	choose    Chooser
+	Trace     []Point
+	Deadlock  bool
+	abort     bool
+	finished  chan struct{}
 	MaxPoints int
 }
 
